@@ -2,6 +2,8 @@ import ScyllaVerif.Model.StreamMap
 import ScyllaVerif.Model.Conn
 import ScyllaVerif.Proofs.StreamMap
 import ScyllaVerif.Proofs.Conn
+import ScyllaVerif.Model.ConnSched
+import ScyllaVerif.Proofs.ConnSched
 /-!
 # C02 — every response reaches exactly the request it answers on a shared connection
 
@@ -208,5 +210,152 @@ theorem exhausted_caller_gets_error (c : Conn) (r : Nat) (q : List Nat) (hb : c.
     getCaller (step c .writerTake).callers r = some (.delivered (.err .unableToAllocStreamId)) := by
   rw [exhaustion c r q hb hq hnone]
   simp [getCaller_deliver, hw]
+
+/-! ## 6. the bounded resources: the 1024-slot submit channel, the orphan threshold (`Model/ConnSched.lean`) -/
+
+section sched
+open ScyllaVerif.ConnSched
+
+/-- `SInv` (with `Inv` of the connection inside) holds in every state the scheduler layer can reach. -/
+theorem sched_inv_reachable (evs : List SEv) : SInv (srun Sched.init evs) := SInv.init.run evs
+
+/-- The submit channel never holds more than its 1024 slots: tasks in the channel plus permits assigned to parked
+callers. -/
+theorem channel_never_over_capacity (evs : List SEv) :
+    (srun Sched.init evs).c.queue.length + (srun Sched.init evs).granted.length ≤ 1024 :=
+  (sched_inv_reachable evs).cap
+
+/-- No caller is parked while a slot is free: if some parked caller has no permit, all 1024 slots are in use
+(a freed slot is handed to the oldest parked caller at once). -/
+theorem no_caller_parks_while_a_slot_is_free (evs : List SEv) (r : Nat)
+    (hr : r ∈ (srun Sched.init evs).c.sending) (hn : r ∉ (srun Sched.init evs).granted) :
+    (srun Sched.init evs).c.queue.length + (srun Sched.init evs).granted.length = 1024 :=
+  (sched_inv_reachable evs).room ⟨r, hr, hn⟩
+
+/-- Permits are only ever assigned to callers that are parked, each at most once; a dead router has assigned none
+(its parked callers get `ChannelError`, C10 `break_outcomes`). -/
+theorem permits_go_to_parked_callers (evs : List SEv) :
+    (∀ r, r ∈ (srun Sched.init evs).granted → r ∈ (srun Sched.init evs).c.sending) ∧
+    (srun Sched.init evs).granted.Nodup ∧
+    ((srun Sched.init evs).c.broken = true → (srun Sched.init evs).granted = []) :=
+  ⟨(sched_inv_reachable evs).sub, (sched_inv_reachable evs).nodup, (sched_inv_reachable evs).dead⟩
+
+/-- A submission takes a slot when one is free … -/
+theorem submit_takes_a_free_slot (s : Sched) (hb : s.c.broken = false)
+    (hroom : s.c.queue.length + s.granted.length < 1024) :
+    (sstep s .submit).c.queue = s.c.queue ++ [s.c.nextReq] ∧ (sstep s .submit).c.sending = s.c.sending := by
+  have hn : ¬ s.c.queue.length + s.granted.length ≥ chanCap := by unfold chanCap; omega
+  simp only [sstep, hn, if_false]
+  obtain ⟨hq, hs, _⟩ := submit_qs hb
+  exact ⟨hq, hs⟩
+
+/-- … and parks when all 1024 are in use. -/
+theorem submit_parks_when_full (s : Sched) (hb : s.c.broken = false)
+    (hfull : s.c.queue.length + s.granted.length ≥ 1024) :
+    (sstep s .submit).c.queue = s.c.queue ∧ (sstep s .submit).c.sending = s.c.sending ++ [s.c.nextReq] := by
+  have hn : s.c.queue.length + s.granted.length ≥ chanCap := hfull
+  simp only [sstep, hn, if_true]
+  obtain ⟨hq, hs, _⟩ := submitFull_qs hb
+  exact ⟨hq, hs⟩
+
+/-- non-vacuity: `k ≤ 1024` submissions with an idle writer fill `k` slots (by induction, not by evaluation) … -/
+theorem submits_fill (k : Nat) (hk : k ≤ 1024) :
+    (srun Sched.init (List.replicate k .submit)).c.queue.length = k ∧
+    (srun Sched.init (List.replicate k .submit)).granted = [] ∧
+    (srun Sched.init (List.replicate k .submit)).c.sending = [] ∧
+    (srun Sched.init (List.replicate k .submit)).c.broken = false := by
+  induction k with
+  | zero => exact ⟨rfl, rfl, rfl, rfl⟩
+  | succ n ih =>
+    obtain ⟨hq, hg, hs, hb⟩ := ih (by omega)
+    have e : srun Sched.init (List.replicate (n + 1) .submit) =
+        sstep (srun Sched.init (List.replicate n .submit)) .submit := by
+      rw [List.replicate_succ', srun, List.foldl_append]; rfl
+    rw [e]
+    have hroom : (srun Sched.init (List.replicate n .submit)).c.queue.length +
+        (srun Sched.init (List.replicate n .submit)).granted.length < 1024 := by rw [hq, hg]; simp; omega
+    obtain ⟨hq', hs'⟩ := submit_takes_a_free_slot _ hb hroom
+    have hn : ¬ (srun Sched.init (List.replicate n .submit)).c.queue.length +
+        (srun Sched.init (List.replicate n .submit)).granted.length ≥ chanCap := by unfold chanCap; omega
+    refine ⟨by rw [hq']; simp [hq], ?_, by rw [hs', hs], ?_⟩
+    · simp only [sstep, hn, if_false, stamp, (submit_qs hb).2.2, Bool.false_eq_true]
+      exact hg
+    · simp only [sstep, hn, if_false, stamp]
+      exact (submit_qs hb).2.2
+
+theorem submits_nextReq (k : Nat) : (srun Sched.init (List.replicate k .submit)).c.nextReq = k := by
+  induction k with
+  | zero => rfl
+  | succ n ih =>
+    rw [List.replicate_succ', srun, List.foldl_append]
+    show (sstep (srun Sched.init (List.replicate n .submit)) .submit).c.nextReq = n + 1
+    simp only [sstep, stamp]
+    split <;> (simp only [step]; split <;> simp [ih])
+
+/-- … and the 1025th parks (it is request 1024). -/
+theorem the_1025th_submission_parks :
+    (sstep (srun Sched.init (List.replicate 1024 .submit)) .submit).c.sending = [1024] ∧
+    (sstep (srun Sched.init (List.replicate 1024 .submit)) .submit).c.queue.length = 1024 := by
+  obtain ⟨hq, hg, hs, hb⟩ := submits_fill 1024 (Nat.le_refl _)
+  obtain ⟨hq', hs'⟩ := submit_parks_when_full _ hb (by rw [hq, hg]; exact Nat.le_refl _)
+  exact ⟨by rw [hs', hs, submits_nextReq]; rfl, by rw [hq', hq]⟩
+
+/-! ### orphan ages -/
+
+/-- The ages follow the orphan set exactly — one entry per orphaned stream id, none for any other — and no age lies
+in the future. -/
+theorem orphan_ages_track_orphans (evs : List SEv) :
+    (srun Sched.init evs).ages.map (·.1) = (srun Sched.init evs).c.map.orphans ∧
+    ∀ p, p ∈ (srun Sched.init evs).ages → p.2 ≤ (srun Sched.init evs).clock :=
+  ⟨(sched_inv_reachable evs).keys, (sched_inv_reachable evs).le⟩
+
+/-- An orphaned id keeps the time at which it was orphaned: an event that leaves the orphan set as it was leaves the
+ages as they were (and the model's skipping of the recomputation in that case changes nothing:
+`ScyllaVerif.ConnSched.agesFor_eq_syncAges`). -/
+theorem orphan_age_is_kept (evs : List SEv) (e : SEv)
+    (ho : (sstep (srun Sched.init evs) e).c.map.orphans = (srun Sched.init evs).c.map.orphans) :
+    (sstep (srun Sched.init evs) e).ages = (srun Sched.init evs).ages :=
+  ages_same_of_orphans_same _ (sched_inv_reachable evs) e ho
+
+/-- THE ORPHAN THRESHOLD: on the orphaner's tick, more than 1024 stream ids that have been orphaned for at least
+1 s end the router with `TooManyOrphanedStreamIds`, and nobody is left waiting (outside the push window). -/
+theorem orphan_threshold_breaks (s : Sched) (h : SInv s) (hb : s.c.broken = false) (hold : oldOrphans s > 1024) :
+    (sstep s .orphanTick).c.broken = true ∧ (sstep s .orphanTick).c.cause = some .tooManyOrphanedStreamIds ∧
+    ∀ r, getCaller (sstep s .orphanTick).c.callers r = some .waiting → r ∈ (sstep s .orphanTick).c.permits := by
+  have hold' : oldOrphans s > orphanLimit := hold
+  have e : (sstep s .orphanTick).c = step s.c (.break_ .tooManyOrphanedStreamIds) := by
+    simp only [sstep, hb, Bool.false_eq_true, if_false, hold', if_true, stamp]
+  rw [e]
+  have hbr : (step s.c (.break_ .tooManyOrphanedStreamIds)).broken = true := by
+    simp only [step, hb, Bool.false_eq_true, if_false]; rfl
+  refine ⟨hbr, by simp only [step, hb, Bool.false_eq_true, if_false]; rfl, ?_⟩
+  intro r hw
+  have hinv := h.inv.step (.break_ .tooManyOrphanedStreamIds)
+  obtain ⟨hq, hs, _, hh, _⟩ := hinv.map.brk hbr
+  rcases hinv.callers.tracked r hw with m | m | ⟨st, hs'⟩ | m
+  · rw [hs] at m; cases m
+  · rw [hq] at m; cases m
+  · rw [hh] at hs'; cases hs'
+  · exact m
+
+/-- … and 1024 or fewer do not: the tick changes nothing. -/
+theorem orphan_threshold_quiet (s : Sched) (hold : oldOrphans s ≤ 1024) : sstep s .orphanTick = s := by
+  have hold' : ¬ oldOrphans s > orphanLimit := by unfold orphanLimit; omega
+  simp only [sstep, hold', if_false]
+  split <;> rfl
+
+/-- An id counts as an old orphan only once a full second has passed since it was orphaned. -/
+theorem old_orphans_are_a_second_old (s : Sched) :
+    oldOrphans s = (s.ages.filter (fun p => p.2 + 1000 ≤ s.clock)).length := rfl
+
+/-- non-vacuity: request 0 is written and abandoned at time 0; after 999 ms it does not count, after 1000 ms it
+does; its answer removes it again. -/
+example :
+    let s := srun Sched.init [.submit, .writerOne, .cancel 0, .orphaner, .advance 999]
+    let s' := sstep s (.advance 1)
+    s.ages = [(0, 0)] ∧ oldOrphans s = 0 ∧ oldOrphans s' = 1 ∧ (sstep s' (.respond 0)).ages = [] := by
+  decide +kernel
+
+end sched
 
 end ScyllaVerif.Props.C02
